@@ -238,6 +238,24 @@ PROPS["C03"] = {
 }
 
 
+PROPS["C17"] = {
+    "module": "PropC17",
+    "theorems": ["C17_utf8_window_decodes", "C17_char_suffix_is_continuation", "C17_strict_ok", "C17_test_only_agrees", "C17_automaton_facts"],
+    "model_targets": ["Model/Decode.vo"],
+    "runs": [{"level": "decode", "args_quick": ["--n", "1500"], "args_thorough": ["--n", "60000"]}],
+    "search": {"level": "decode", "args": ["--n", "12000"]},
+    "rule": "for every resolvable encoding: random, re-encoded (sometimes corrupted / truncated), corpus and UTF-8 edge-case byte strings "
+            "(overlongs, surrogates, U+10FFFF, stray continuations) through the public helper in strict / ignore / replace x test-only, "
+            "compared with the codec crate's own decode; the UTF-8 decoder model (all modes incl. chunk) and the single-byte decoder model "
+            "(30 forward tables dumped from the crate at run time) compared with the helper; and ALL windows [i,j) of short valid UTF-8 "
+            "texts mixing 1-4 byte characters (incl. U+7FF/U+800/U+FFFF/U+10000/U+10FFFF) that contain a complete character, decoded in "
+            "chunk mode against the expected complete characters and against the model; non-trivial = successful decodes",
+    "assumptions": ["clause (a) 'helper = codec' is definitional in the model (two copies of one loop): its tie is the decode correspondence",
+                    "CJK and UTF-16 decoders are compared helper-vs-crate only (not modelled)"],
+    "trusted": [],
+}
+
+
 def _tok(line):
     return line.split(" ")
 
